@@ -2,7 +2,7 @@
    input polyline, strictly inside the ideal band), the path segments (plus its points as degenerate
    segments), the triangles as emitted, and the squared allowed reach. *)
 From Coq Require Import QArith.
-From LV Require Import Base.Prelude Model.Bezier Model.Winding Checker.Region Checker.StrokeCover.
+From LV Require Import Base.Prelude Model.Bezier Model.Winding Checker.Region Checker.StrokeCover Checker.Slab Checker.CoverPlane.
 Open Scope Q_scope.
 
 Record c06_case := mkCC { cc_id : Z; cc_must : list polygon; cc_segs : list edge; cc_tris : list triangle; cc_r2 : Q }.
@@ -14,3 +14,10 @@ Definition bad_cases (cs : list c06_case) : list (Z * Z * Z) :=
     let inner := Z.of_nat (length (check_sub 12 (cc_must c) (cc_tris c))) in
     let outer := Z.of_nat (length (all_within (cc_r2 c) (cc_segs c) (cc_tris c))) in
     if (inner =? 0)%Z && (outer =? 0)%Z then [] else [(cc_id c, inner, outer)]) cs.
+
+(* whole-plane decision (Checker/CoverPlane.v, C06_plane_sub_sound): the ids of the cases for which "every point of
+   every must polygon is covered" could NOT be established at every point of the plane (never an alarm by itself:
+   uncovered must points are reported by the line check above); every case not listed has it everywhere *)
+Definition plane_sub_undecided (cs : list c06_case) : list Z :=
+  flat_map (fun c =>
+    if check_plane_sub (cc_must c) (cc_tris c) (event_ys (concat (cc_must c)) (cc_tris c)) then [] else [cc_id c]) cs.
